@@ -25,7 +25,7 @@ def fam_ws(rnd, n):
                 h.append("submit:%d" % rnd.choice([1, 2, 2]))
             elif r < 0.22 and restarts < 2 and j > 0:
                 restarts += 1
-                h.append("%s:%d" % (rnd.choice(["restart", "restart", "restart", "restart-norec", "restart-aged"]), rnd.choice([0, 8, 15, 25, 35, 45, 55, 65, 75, 85, 95, 100, 100, 100])))
+                h.append("%s:%d" % (rnd.choice(["restart", "restart", "restart", "restart-norec", "restart-aged", "restart-aged", "restart-norec-aged"]), rnd.choice([0, 8, 15, 25, 35, 45, 55, 65, 75, 85, 95, 100, 100, 100])))
             elif stale and r < 0.30:
                 h.append("sleep:280")
             else:
@@ -38,6 +38,12 @@ def fam_ws(rnd, n):
         if rnd.random() < 0.5:
             sc["lagidx"] = True
         res.append(sc)
+    # every kind of restart at crash points spread over a started plan's write log, whatever the sample
+    for kind in ("restart", "restart-norec", "restart-aged", "restart-norec-aged"):
+        for k in (15, 35, 55, 75, 100):
+            tail = rnd.choice([["wait:1", "status:1", "start:1"], ["start:1", "plan:1", "wait:1"], ["bgwait:1", "race2:1", "waitto:1"]])
+            res.append({"kind": "ws", "shape": TINY, "mode": "free", "api": ["submit:1", "submit:2", "start:1", "%s:%d" % (kind, k)] + tail + ["start:2", "wait:2"],
+                        "tag": "ws-directed", "out": {"0#b1.s1.a1": [rnd.choice(["ok", "perm"])]}, "lat": {"b1.s1.a1": [rnd.choice([0, 300])]}, "lagidx": k == 100})
     return res
 
 
